@@ -120,12 +120,24 @@ def _ll_nuis(c, s=0.05):
     return t
 
 
+def _ll_cross(c, w=0.01):
+    """two thin stripes hugging the faces x0 = 0 and x1 = 0 (a 'cross' in the corner): the first bound
+    is unconstrained along both parameters, later members are thin ellipsoids poking through a face"""
+    a = (c[0] - w) / w
+    b = (c[1] - w) / w
+    t = np.maximum(-0.5 * a * a, -0.5 * b * b)
+    for ci in c[2:]:
+        e = (ci - 0.5) / 0.2
+        t = t - 0.5 * e * e
+    return t
+
+
 def _ll_const(c):
     return 0.0 * c[0]
 
 
 LIKES = dict(gauss=_ll_gauss, gwide=_ll_gwide, two=_ll_two, ring=_ll_ring, half=_ll_half, plateau=_ll_plateau,
-             wrap=_ll_wrap, const=_ll_const, funnel=_ll_funnel, nuis=_ll_nuis)
+             wrap=_ll_wrap, const=_ll_const, funnel=_ll_funnel, nuis=_ll_nuis, cross=_ll_cross)
 
 BLOB_KINDS = ('none', 'float', 'int', 'two', 'array', 'struct', 'f32')
 
